@@ -6165,7 +6165,10 @@ class Path(Shape, MutableSequence):
         the second control point in the previous path."""
         for index in range(len(points)):
             start_pos = self.current_point
-            control1 = self.smooth_point
+            control1 = start_pos
+            if len(self._segments) and isinstance(self._segments[-1], QuadraticBezier):
+                # Only a preceding quadratic curve has its control reflected.
+                control1 = self.smooth_point
             end_pos = points[index]
             if end_pos in ("z", "Z"):
                 end_pos = self.z_point
@@ -6203,7 +6206,10 @@ class Path(Shape, MutableSequence):
         the second control point in the previous path."""
         for index in range(0, len(points), 2):
             start_pos = self.current_point
-            control1 = self.smooth_point
+            control1 = start_pos
+            if len(self._segments) and isinstance(self._segments[-1], CubicBezier):
+                # Only a preceding cubic curve has its control reflected.
+                control1 = self.smooth_point
             control2 = points[index]
 
             if control2 in ("z", "Z"):
